@@ -26,7 +26,7 @@ import (
 // rule groups of checkers/rules/rules.go whose diagnostics promise an equivalent rewrite and that
 // Model_Rewrites covers (source text tie) and the differential oracle executes
 var coveredGroups = []string{"sloppyLen", "emptyStringTest", "stringXbytes", "wrapperFunc", "assignOp", "switchTrue", "unslice",
-	"stringsCompare", "yodaStyleExpr", "valSwap", "stringConcatSimplify", "timeExprSimplify", "offBy1"}
+	"stringsCompare", "yodaStyleExpr", "valSwap", "stringConcatSimplify", "timeExprSimplify", "offBy1", "equalFold"}
 
 type shippedRule struct {
 	group    string
@@ -150,6 +150,7 @@ type ruleProg struct {
 	checker string
 	kind    string // "expr" | "stmts"
 	body    string
+	spec    int // index into ruleSpecs
 }
 
 type ruleSpec struct {
@@ -159,7 +160,12 @@ type ruleSpec struct {
 	// rewrite derives (original, replacement) from a diagnostic; ok=false: the diagnostic makes no equivalence claim
 	rewrite func(l *exprgen.Linted, w linter.Warning, body string) (orig, repl string, ok bool)
 	class   func(orig, repl string) string
+	// classIn, when set, attributes a failing rewrite using the failing input as well
+	classIn func(orig string, in exprgen.Input) string
 	weight  int // how many instances relative to the default (0 = 1)
+	// fixed: instances every run contains (the boundary questions of the matcher: how the literal 1 is matched,
+	// which operand forms count as $x), besides the sampled ones
+	fixed []string
 }
 
 var (
@@ -171,6 +177,7 @@ var (
 	swapRe       = regexp.MustCompile("^can re-write as `(.*)`$")
 	swapStmtsRe  = regexp.MustCompile(`tmp := [^;]+; [^;]+; [^;]+ = tmp`)
 	deferRe      = regexp.MustCompile("^can rewrite as `(.*)`$")
+	useMethodRe  = regexp.MustCompile("^use (.*) method in `(.*)`$")
 )
 
 func fromQuickFix(l *exprgen.Linted, w linter.Warning, _ string) (string, string, bool) {
@@ -245,7 +252,24 @@ func fmtClass(orig, repl string) string {
 var deferSpecs = []ruleSpec{
 	{checker: "deferUnlambda", kind: "stmts",
 		gen: func(p func(...string) string) string {
-			switch p("var", "var", "pkgfn", "late") {
+			// callee forms: a declared function, a package-qualified function, a func-typed variable, a method of
+			// a pointer variable, a func-typed field reached through a pointer variable — each with and without
+			// a re-assignment of the variable between the defer statement and the function's end
+			re := func(stmt string) string {
+				if p("y", "y", "n") == "y" {
+					return "; " + stmt
+				}
+				return ""
+			}
+			switch p("var", "var", "pkgfn", "late", "ptrmeth", "ptrmeth2", "ptrfield", "qual") {
+			case "ptrmeth":
+				return "func() { wp := w; defer func() { wp.flush() }()" + re("wp = &wr{}") + " }()"
+			case "ptrmeth2":
+				return "func() { wp := w; defer func() { wp.refill() }()" + re("wp = &wr{avail: 3}") + " }()"
+			case "ptrfield":
+				return "func() { ob := &obj{f: hi}; defer func() { ob.f(1) }()" + re("ob = &obj{f: hj}") + " }()"
+			case "qual":
+				return "func() { defer func() { strings.ToUpper(\"a\") }(); c = 2 }()"
 			case "pkgfn":
 				return "func() { defer func() { setG() }(); gxs = nil }(); c = len(gxs)"
 			case "late":
@@ -264,6 +288,9 @@ var deferSpecs = []ruleSpec{
 		class: func(orig, _ string) string {
 			if strings.Contains(orig, "cl = func()") {
 				return "func-variable-evaluated-at-defer"
+			}
+			if strings.Contains(orig, "wp.") || strings.Contains(orig, "ob.f(") {
+				return "receiver-variable-evaluated-at-defer"
 			}
 			return "unclassified"
 		}},
@@ -374,7 +401,66 @@ var handSpecs = []ruleSpec{
 		}},
 }
 
-var ruleSpecs = append([]ruleSpec{
+// wrapperFunc's strings.Cut rules match statement SEQUENCES; the quick fix carries a `{ ... }` placeholder, so the
+// replacement the message describes is built here.  Separators of every length (the rewrite keeps `$s[$i+1:]`
+// = everything after the FIRST BYTE of the separator; Cut returns what follows the whole separator).
+var cutSeps = []string{`","`, `"="`, `", "`, `"::"`, `"abc"`, `"é"`, "t"}
+
+func cutBody(form, sep string, cut bool) string {
+	switch form {
+	case "if", "ifge":
+		cond := "i != -1"
+		if form == "ifge" {
+			cond = "i >= 0"
+		}
+		if cut {
+			return "var x1, y1 string; var ok bool; if x1, y1, ok = strings.Cut(s, " + sep + "); ok { c = 1 }; s, t = x1, y1"
+		}
+		return "var x1, y1 string; if i := strings.Index(s, " + sep + "); " + cond + " { x1, y1 = s[:i], s[i+1:]; c = 1 }; s, t = x1, y1"
+	}
+	// the unguarded sequence, on a string that contains the separator
+	if cut {
+		return "var x1, y1 string; s2 := s + " + sep + " + s; x1, y1, _ = strings.Cut(s2, " + sep + "); s, t = x1, y1"
+	}
+	return "var x1, y1 string; s2 := s + " + sep + " + s; i := strings.Index(s2, " + sep + "); x1, y1 = s2[:i], s2[i+1:]; s, t = x1, y1"
+}
+
+var cutSpec = ruleSpec{checker: "wrapperFunc", kind: "stmts",
+	gen: func(p func(...string) string) string {
+		return cutBody(p("if", "ifge", "seq"), p(cutSeps...), false)
+	},
+	rewrite: func(l *exprgen.Linted, w linter.Warning, body string) (string, string, bool) {
+		if !strings.Contains(w.Text, "strings.Cut(") {
+			return "", "", false
+		}
+		for _, form := range []string{"if", "ifge", "seq"} {
+			for _, sep := range cutSeps {
+				if cutBody(form, sep, false) == body {
+					return body, cutBody(form, sep, true), true
+				}
+			}
+		}
+		return "", "", false
+	},
+	class: func(orig, _ string) string { return "unclassified" },
+	classIn: func(orig string, in exprgen.Input) string {
+		sep := in.T
+		for _, lit := range cutSeps {
+			if lit != "t" && strings.Contains(orig, ", "+lit+")") {
+				sep, _ = strconv.Unquote(lit)
+			}
+		}
+		if !strings.Contains(orig, "s2 :=") && !strings.Contains(in.S, sep) {
+			// `if x, y, ok = strings.Cut(s, sep); ok {` assigns x = s, y = "" before ok is looked at
+			return "cut-assigns-when-separator-absent"
+		}
+		if len(sep) != 1 {
+			return "cut-separator-not-one-byte"
+		}
+		return "unclassified"
+	}}
+
+var ruleSpecs = append([]ruleSpec{cutSpec,
 	{checker: "sloppyLen", kind: "expr",
 		gen: func(p func(...string) string) string {
 			return "len(" + p("s", "xs", "bs", "fs()", "fxs()", "s + t", "ms", "mi", "mm", "ma", "pa", "w.buf") + ") " + p("<= 0", "<= 0", "<= 00")
@@ -409,13 +495,33 @@ var ruleSpecs = append([]ruleSpec{
 	{checker: "wrapperFunc", kind: "expr",
 		gen: func(p func(...string) string) string {
 			s := func() string { return p("s", "t", "fs()", `"ab"`, "s + t", `""`) }
-			if p("s", "b") == "s" {
+			switch p("s", "s", "b", "b", "any", "repl", "brepl") {
+			case "s":
 				return "strings.Index(" + s() + ", " + s() + ") " + p(">= 0", "!= -1")
+			case "any":
+				return "strings.IndexAny(" + s() + ", " + s() + ") " + p(">= 0", "!= -1")
+			case "repl":
+				return "strings.Replace(" + s() + ", " + s() + ", " + s() + ", -1)"
+			case "brepl":
+				bb := func() string { return p("bs", "fbs()", "[]byte(s)", `[]byte("a")`) }
+				return "string(bytes.Replace(" + bb() + ", " + bb() + ", " + bb() + ", -1))"
 			}
 			b := func() string { return p("bs", "fbs()", "[]byte(s)", `[]byte("a")`) }
 			return "bytes.Index(" + b() + ", " + b() + ") " + p(">= 0", "!= -1")
 		},
-		rewrite: fromQuickFix, class: classPurity},
+		rewrite: func(l *exprgen.Linted, w linter.Warning, body string) (string, string, bool) {
+			if o, n, ok := fromQuickFix(l, w, body); ok {
+				return o, n, ok
+			}
+			// the Report-only wrappers name the function to use: `X.Replace(a, b, c, -1)` => `X.ReplaceAll(a, b, c)`
+			if m := useMethodRe.FindStringSubmatch(w.Text); m != nil && strings.HasSuffix(m[1], ".ReplaceAll") {
+				orig := m[2]
+				if i := strings.Index(orig, ".Replace("); i >= 0 && strings.HasSuffix(orig, ", -1)") {
+					return orig, orig[:i] + ".ReplaceAll(" + strings.TrimSuffix(orig[i+len(".Replace("):], ", -1)") + ")", true
+				}
+			}
+			return "", "", false
+		}, class: classPurity},
 	{checker: "stringsCompare", kind: "expr",
 		gen: func(p func(...string) string) string {
 			s := func() string { return p("s", "t", "fs()", `"ab"`, "s + t", `"é"`) }
@@ -470,10 +576,16 @@ var ruleSpecs = append([]ruleSpec{
 		}},
 	{checker: "unslice", kind: "expr",
 		gen: func(p func(...string) string) string {
-			return p("s[:]", "xs[:]", "bs[:]", "fs()[:]", "fxs()[:]", "(s + t)[:]", "len(xs[:])", "ms[:]", "mi[:]", "len(ma[:])", "len(pa[:])", "w.buf[:]", "mm[1][:]")
+			// operands of every sliceable kind; the value itself is observed (a slice of an array or of a pointer
+			// to an array is not the operand)
+			return p("s[:]", "xs[:]", "bs[:]", "fs()[:]", "fxs()[:]", "(s + t)[:]", "len(xs[:])", "ms[:]", "mi[:]", "len(ma[:])", "len(pa[:])", "w.buf[:]", "mm[1][:]",
+				"pa[:]", "ma[:]", "(&ma)[:]", "append(pa[:], 4)", "cap(ma[:]) + a")
 		},
 		rewrite: fromQuickFix, class: classPurity},
 	{checker: "assignOp", kind: "stmts", weight: 5,
+		fixed: []string{"a = a + 0x1", "a = a - 01", "a = a + 0b1", "a = a + 1_0", "p = p + 1.0", "p = p + 1", "p = p - 0x1", "mf = mf + 1", "mf = mf - 1",
+			"w.avail = w.avail - 1", "w.avail = w.avail + 0x1", "a = a + cOne", "xs[a] = xs[a] + 0o1", "mi[0] = mi[0] - 1", "ma[1] = ma[1] + 1",
+			"a = (a + 1)", "a = a + (1)", "(a) = a + 1", "a = (a) + 1", "u = u + 1", "s = s + \"1\"", "a = a + 2 - 1", "xs[a+1] = xs[a+1] + 1", "xs[a+1] = xs[1+a] + 1"},
 		// every operator of the rule group, every operand type it can be applied to (int, uint, float64,
 		// string, defined string type, slice element), both operand orders
 		gen: func(p func(...string) string) string {
@@ -481,10 +593,10 @@ var ruleSpecs = append([]ruleSpec{
 				xs, ys, ops []string
 			}
 			pools := []pool{
-				{[]string{"a", "b", "xs[a]", "xs[fi()]", "mi[0]", "ma[1]", "pa[2]"}, []string{"1", "b", "c", "fi()", "3", "a"},
+				{[]string{"a", "b", "xs[a]", "xs[fi()]", "mi[0]", "ma[1]", "pa[2]", "w.avail", "mi[a]", "xs[b+1]"}, []string{"1", "b", "c", "fi()", "3", "a", "cLim", "cOne", "0x1", "01", "a * b", "(b)"},
 					[]string{"+", "-", "*", "/", "%", "&", "|", "^", "<<", ">>", "&^"}},
 				{[]string{"u", "v"}, []string{"1", "v", "u", "fu()", "3"}, []string{"+", "*", "/", "%", "&", "|", "^", "<<", ">>", "&^"}},
-				{[]string{"p", "q"}, []string{"1", "q", "p", "ff()", "2.5"}, []string{"+", "-", "*", "/"}},
+				{[]string{"p", "q", "mf", "w.g"}, []string{"1", "q", "p", "ff()", "2.5", "1.0", "cF", "0x1"}, []string{"+", "-", "*", "/"}},
 				{[]string{"s", "t"}, []string{"t", "s", `"a"`, "fs()", `"é"`}, []string{"+"}},
 				{[]string{"ms"}, []string{"ms", `"a"`, "myStr(t)"}, []string{"+"}},
 				{[]string{"mm[0]", "w.buf[0]"}, []string{"t", `"b"`, "1"}, []string{"+"}},
@@ -511,10 +623,20 @@ var ruleSpecs = append([]ruleSpec{
 		}},
 	{checker: "valSwap", kind: "stmts",
 		gen: func(p func(...string) string) string {
-			x := p("a", "xs[a]", "xs[fi()]", "s", "xs[0]", "xs[b]")
-			y := p("b", "xs[b]", "xs[gi()]", "t", "xs[1]", "b")
-			if (x == "s") != (y == "t") {
+			x := p("a", "xs[a]", "xs[fi()]", "s", "xs[0]", "xs[b]", "w.avail", "mi[0]", "ma[0]", "mf")
+			y := p("b", "xs[b]", "xs[gi()]", "t", "xs[1]", "b", "c", "mi[1]", "ma[2]", "mg")
+			if (x == "s") != (y == "t") || (x == "mf") != (y == "mg") {
 				x, y = "a", "b"
+			}
+			switch p("plain", "plain", "plain", "around", "apart", "othertmp") {
+			case "around": // the three statements inside a longer list
+				return "c = 1; tmp := " + y + "; " + y + " = " + x + "; " + x + " = tmp; c = c + 2"
+			case "apart": // not adjacent: no swap idiom
+				return "tmp := " + y + "; c = 4; " + y + " = " + x + "; " + x + " = tmp"
+			case "othertmp": // the third statement reads another variable
+				if x == "a" || x == "xs[a]" || x == "xs[0]" || x == "xs[b]" || x == "w.avail" || x == "mi[0]" || x == "ma[0]" {
+					return "tmp := " + y + "; " + y + " = " + x + "; " + x + " = c; _ = tmp"
+				}
 			}
 			if p("v", "v", "v", "list") == "list" {
 				// an operand reached THROUGH the other one: a linked list step
@@ -542,14 +664,22 @@ var ruleSpecs = append([]ruleSpec{
 		}},
 	{checker: "switchTrue", kind: "stmts",
 		gen: func(p func(...string) string) string {
-			return "switch true {\n\tcase " + p("a > b", "fb()", "k") + ":\n\t\tc = 1\n\tcase " + p("a == b", "fb()", "l") + ":\n\t\tc = 2\n\tdefault:\n\t\tc = 3\n\t}"
+			// the tag is matched by its spelling: the predeclared constant, and a variable that shadows it
+			pro := p("", "", "", "true := l; k = true; ", "true := a > 1; k = true; ")
+			tag := p("true", "true", "true", "true", "k", "false", "cT > 1")
+			return pro + "switch " + tag + " {\n\tcase " + p("a > b", "fb()", "k", "a > cLim") + ":\n\t\tc = 1\n\tcase " + p("a == b", "fb()", "l") + ":\n\t\tc = 2\n\tdefault:\n\t\tc = 3\n\t}"
 		},
 		rewrite: func(l *exprgen.Linted, w linter.Warning, body string) (string, string, bool) {
 			if !strings.Contains(w.Text, "replace 'switch true {}' with 'switch {}'") {
 				return "", "", false
 			}
 			return body, strings.Replace(body, "switch true {", "switch {", 1), true
-		}, class: classPurity},
+		}, class: func(orig, _ string) string {
+			if strings.Contains(orig, "true :=") {
+				return "shadowed-true"
+			}
+			return classPurity(orig, "")
+		}},
 }, append(append(handSpecs, fmtSpecs...), deferSpecs...)...)
 
 const rulesLintHeader = "package p\n\nimport (\n\t\"bytes\"\n\t\"fmt\"\n\t\"strings\"\n\t\"time\"\n)\n\nvar _ = bytes.Equal\nvar _ = strings.Index\nvar _ time.Time\nvar _ = fmt.Sprint\n"
@@ -607,11 +737,17 @@ func runRules(meta *common.Meta, tier string, seed int64, outDir string) {
 	r := common.NewRand(seed, "c10-rules")
 	pick := func(xs ...string) string { return xs[r.Intn(len(xs))] }
 	var progs []*ruleProg
-	for _, sp := range ruleSpecs {
+	for si, sp := range ruleSpecs {
 		seen := map[string]bool{}
 		want := perRule
 		if sp.weight > 0 {
 			want *= sp.weight
+		}
+		for _, b := range sp.fixed {
+			if !seen[b] {
+				seen[b] = true
+				progs = append(progs, &ruleProg{fn: fmt.Sprintf("r%d", len(progs)), checker: sp.checker, kind: sp.kind, body: b, spec: si})
+			}
 		}
 		for tries := 0; tries < want*6 && len(seen) < want; tries++ {
 			b := sp.gen(pick)
@@ -619,7 +755,7 @@ func runRules(meta *common.Meta, tier string, seed int64, outDir string) {
 				continue
 			}
 			seen[b] = true
-			progs = append(progs, &ruleProg{fn: fmt.Sprintf("r%d", len(progs)), checker: sp.checker, kind: sp.kind, body: b})
+			progs = append(progs, &ruleProg{fn: fmt.Sprintf("r%d", len(progs)), checker: sp.checker, kind: sp.kind, body: b, spec: si})
 		}
 	}
 	const sig = exprgen.Params + ", tm time.Time"
@@ -657,16 +793,18 @@ func runRules(meta *common.Meta, tier string, seed int64, outDir string) {
 		p    *ruleProg
 		text string
 	}
-	for _, sp := range ruleSpecs {
+	stmtObs := map[string][]string{}
+	for si, sp := range ruleSpecs {
 		ws, err := l.Run(sp.checker)
 		if err != nil {
 			panic(err)
 		}
 		for _, w := range ws {
 			p := byFn[l.FuncOf(w.Pos)]
-			if p == nil || p.checker != sp.checker {
+			if p == nil || p.spec != si {
 				continue
 			}
+			stmtObs[p.fn] = append(stmtObs[p.fn], w.Text)
 			orig, repl, ok := sp.rewrite(l, w, p.body)
 			if !ok {
 				continue
@@ -711,6 +849,7 @@ func runRules(meta *common.Meta, tier string, seed int64, outDir string) {
 	}
 	meta.Distribution["rules_fired"] = fired
 	meta.Distribution["rule_programs"] = len(keep)
+	runStmtTie(meta, outDir, l, keep, stmtObs)
 	meta.Distinct += len(dcs)
 	mm, evals, err := exprgen.RunDiff(filepath.Join(outDir, "diff_rules"), dcs)
 	if err != nil {
@@ -721,10 +860,21 @@ func runRules(meta *common.Meta, tier string, seed int64, outDir string) {
 	}
 	meta.Evaluations += evals
 	meta.Distribution["rule_pair_evaluations"] = evals
+	// suggestions the compiler rejects cannot be executed (their validity is C09's subject): listed, not judged here
+	var notCompilable []string
+	for _, c := range dcs {
+		if c.Uncompilable {
+			notCompilable = append(notCompilable, c.Tag.(tag).p.checker+": `"+c.Orig+"` => `"+c.New+"`")
+		}
+	}
+	meta.Distribution["rule_pairs_not_compilable"] = notCompilable
 	sort.SliceStable(mm, func(i, j int) bool { return len(mm[i].Case.Orig) < len(mm[j].Case.Orig) })
 	for _, m := range mm {
 		t := m.Case.Tag.(tag)
-		key := "C10/" + t.p.checker + "/" + specOf[t.p.checker].class(m.Case.Orig, m.Case.New)
+		key := "C10/" + t.p.checker + "/" + ruleSpecs[t.p.spec].class(m.Case.Orig, m.Case.New)
+		if ci := ruleSpecs[t.p.spec].classIn; ci != nil {
+			key = "C10/" + t.p.checker + "/" + ci(m.Case.Orig, m.Input)
+		}
 		meta.Fail(key, fmt.Sprintf("%s: `%s` => `%s` changes behaviour: original %s, suggestion %s", t.p.checker, m.Case.Orig, m.Case.New, m.Orig, m.New),
 			map[string]interface{}{"original": m.Case.Orig, "suggestion": m.Case.New, "message": t.text, "input": m.Input, "original_result": m.Orig, "suggested_result": m.New})
 	}
@@ -935,6 +1085,9 @@ func runSynthDiff(meta *common.Meta, outDir string) {
 		groups[g] = true
 	}
 	delete(groups, "offBy1") // its suggestion is a bug fix, not an equivalence claim
+	// equalFold ("consider replacing with"): not among the checkers C10 enumerates; its rule text is tied and its
+	// semantics modelled (C10_equal_fold_*), but it is not executed as an equivalence claim
+	groups["equalFold"] = false
 	cases, hits, misses := valdiff.Collect(
 		func(g string, r ir.Rule) bool { return groups[g] && r.SuggestTemplate != "" }, 1500,
 		func(group string, w linter.Warning, l *exprgen.Linted) (token.Pos, token.Pos, string, string, bool) {
